@@ -108,4 +108,12 @@ CLAIMS["C12"] = proof(
     "guard is alive or a writer/upgrader is announced; C12_try_read_fails — then try_read returns None; C12_reader_blocked — then every poll of every read() future returns Pending (whatever its cached state, notified or not). The bit is "
     "cleared only by write_unlock, the downgrades of a write guard and the cancellation of the announced writer (site lists pinned by Tie_Raw/Tie_RwFutures); the announced writer completes when the last reader leaves (C06 (d)). Schedule half not proved. " + CORR, NOTE)
 
+CLAIMS["C17"] = dict(category="translation_validation",
+    text="Decided on the implementation by the harness monitor (at every settle point the executor re-polls every woken future; more than 3*pending+3 polls is a violation; a hang is caught by the watchdog and reported with the history) "
+         "and by the correspondence (every wake-up list equals the model's). PARTIAL theorems (Properties/C17.v): for every history of each of the five machines no poll exhausts its loop fuel or takes an unreachable branch "
+         "(C17_*_polls_terminate_partial) — a single poll performs a bounded number of iterations and cannot spin. The bound on the number of polls needed to settle is NOT proved: it needs the converse ownership invariant "
+         "(woken pending future => its entry is notified, resting on waker uniqueness) and a potential function; see DESIGN.md §9. " + CORR,
+    note="trusts the harness, the settle monitor and the model's faithfulness as far as the histories exercise it; " + NOTE,
+    technique="runtime monitor on the crate + differential execution against the Coq model; partial Coq theorems (per-poll termination)")
+
 NOT_APPLICABLE = []
